@@ -18,11 +18,11 @@ package main
 
 import (
 	"fmt"
-	"strings"
 	"go/constant"
 	"go/token"
 	"go/types"
 	"os"
+	"strings"
 
 	"golang.org/x/tools/go/ssa"
 )
